@@ -58,7 +58,14 @@ SVH_CMD(revloop) {
     uint64_t reps = op.repeat_block_rep_count();
     SparseUnsignedRevFrameTracker t1 = t, t2 = t;
     t1.undo_loop(body, reps);
-    t2.undo_loop_by_unrolling(body, reps);
     out << "FOLD " << tracker_state(t1) << "\n";
+    // the unrolled reference is only computed when it is cheap enough (its running time is not part of any property)
+    uint64_t budget = (uint64_t)req.iarg(0, 150000);
+    uint64_t body_ops = body.flattened().operations.size() + 1;
+    if (reps > budget / body_ops) {
+        out << "UNROLL-SKIPPED " << reps << " x " << body_ops << "\n";
+        return;
+    }
+    t2.undo_loop_by_unrolling(body, reps);
     out << "UNROLL " << tracker_state(t2) << "\n";
 }
